@@ -145,6 +145,10 @@ register_shape(coap_context_t *ctx, const struct rl_res *m) {
   }
   if (m->observable)
     coap_resource_set_get_observable(r, 1);
+  /* what an application does next with a resource it serves: choose the notification type and hang a handler on it.
+   * Neither is part of the listing, and neither may change it (the markers come from the flags given at creation). */
+  coap_resource_set_mode(r, strlen(m->path) & 1 ? COAP_RESOURCE_FLAGS_NOTIFY_CON : COAP_RESOURCE_FLAGS_NOTIFY_NON);
+  coap_resource_set_userdata(r, (void *)m);
   coap_add_resource(ctx, r);
   return r;
 }
